@@ -342,8 +342,11 @@ def ownership(contract, cfg_key, cfg_ty, owner_field, pending_key):
             n += 1
             cfg = (W2.item(st, cfg_key) if contract == 'hub' else W2.get_item(st, cfg_key))
             own = W2.mk.field(cfg, cfg_ty, owner_field, W2.crate)
-            ctx.require(st, S.struct_eq(st, own, W2.mk.caddr(W2.principals['pending'])), 'after acceptance the nominee is the owner (the ex-owner is no longer)',
-                        contract + ':accept:owner', W2.mv)
+            pend2 = (W2.item(st, pending_key) if contract == 'hub' else W2.get_item(st, pending_key))
+            ctx.require_all(st, [(S.struct_eq(st, own, W2.mk.caddr(W2.principals['pending'])), 'after acceptance the nominee is the owner (the ex-owner is no longer)',
+                                  contract + ':accept:owner'),
+                                 (S.struct_eq(st, pend2.fields[0], W2.mk.caddr(W2.principals['pending'])),
+                                  'after acceptance nobody but the new owner is recorded as nominee (the ex-owner cannot accept again)', contract + ':accept:pending')], W2.mv)
         ctx.need_witness('AcceptOwnership Ok path', n > 0)
     return ob
 
@@ -398,6 +401,9 @@ def ORACLE(v, scn, out):
             return [] if got == canon(nominee) else ['recorded nominee %r, nominated %s' % (got, nominee)]
         if what == 'accept:owner':
             return [] if post[ck][of] == canon(scn['info']['sender']) else ['owner after acceptance is not the nominee']
+        if what == 'accept:pending':
+            got = list(post[pk].values())[0] if isinstance(post[pk], dict) else post[pk]
+            return [] if got == canon(scn['info']['sender']) else ['recorded nominee after acceptance is %r, not the new owner' % (got,)]
         return None
     if key.endswith(':unauthorised'):
         return ['accepted: ' + str(out['result'])[:200]] if 'ok' in out.get('result', {}) else []
